@@ -188,9 +188,10 @@ Record out := mkOut {
   o_cmds : list N;       (* targets of transition commands *)
   o_calls : list N;
   o_trigs : list N;
-  o_pend : N             (* destroy only: live pending calls left in the environment object *)
+  o_pend : N;            (* destroy only: live pending calls left in the environment object *)
+  o_launch : list N      (* tasks launched (ACCEPT) *)
 }.
-Definition out_rc (rc : N) : out := mkOut rc [] [] [] [] 0.
+Definition out_rc (rc : N) : out := mkOut rc [] [] [] [] 0 [].
 
 (* ---------- transitions driven by the API ---------- *)
 Definition ev_src_dst (ev : N) : option (N * N * N) :=   (* environment src, dst; task dst *)
@@ -225,7 +226,9 @@ Definition with_envs (s : st) (l : list env) : st := mkSt l (s_roster s) (s_snap
 Record cspec := mkSpec {
   c_dets : list N;     (* detectors of the FLP hosts of the workflow *)
   c_fail : N;          (* 0 none, 1 template file missing, 2 template error, 3 host without detector,
-                          4 a critical role no agent can take *)
+                          4 a critical role no agent can take, 5 the DEPLOY transition gave up on its timeout
+                          although every task reported in (its status notification was lost: the
+                          non-blocking fan-out of workflow status changes drops what nobody is waiting for) *)
   c_roles : list role
 }.
 
@@ -238,13 +241,13 @@ Definition snap (e : N) (missing : bool) (s : st) : st * out :=
   if missing then (s, out_rc 1)
   else
     let '(r', k) := cleanup (s_roster s) in
-    (mkSt (s_envs s) r' ((e, active_dets (s_envs s)) :: remove_snap e (s_snaps s)), mkOut 0 k [] [] [] 0).
+    (mkSt (s_envs s) r' ((e, active_dets (s_envs s)) :: remove_snap e (s_snaps s)), mkOut 0 k [] [] [] 0 []).
 
 (* failure tail of CreateEnvironment: GO_ERROR, forced teardown, KillTasks(envTasks) *)
-Definition create_tail (x : env) (s : st) (cmds : list N) : st * out :=
+Definition create_tail (x : env) (s : st) (cmds : list N) (launched : list N) : st * out :=
   let t := teardown true (e_id x) s in
   let '(r', k) := kill_tasks (bound_tids x) (s_roster (td_st t)) in
-  (with_roster (td_st t) r', mkOut 1 k cmds (td_calls t) (td_trigs t) 0).
+  (with_roster (td_st t) r', mkOut 1 k cmds (td_calls t) (td_trigs t) 0 launched).
 
 Definition finish (e : N) (c : cspec) (s : st) : st * out :=
   match assocN e (s_snaps s) with
@@ -257,13 +260,14 @@ Definition finish (e : N) (c : cspec) (s : st) : st * out :=
         let x0 := mkEnv e (c_dets c) ES_STANDBY (c_roles c) false 0 in
         if N.eqb (c_fail c) 4 then
           let xe := set_estate ES_ERROR x0 in
-          create_tail xe (with_envs s0 (s_envs s0 ++ [xe])) []
+          create_tail xe (with_envs s0 (s_envs s0 ++ [xe])) [] []
         else
           let x1 := set_bound x0 in
+          let launched := map (fun ir => tid_of e (fst ir)) (task_iroles x1) in
           let r1 := s_roster s0 ++ map (launch_task e) (task_iroles x1) in
-          if existsb (fun r => is_task_role r && N.eqb (r_launch r) 1) (c_roles c) then
+          if existsb (fun r => is_task_role r && N.eqb (r_launch r) 1) (c_roles c) || N.eqb (c_fail c) 5 then
             let xe := set_estate ES_ERROR x1 in
-            create_tail xe (mkSt (s_envs s0 ++ [xe]) r1 (s_snaps s0)) []
+            create_tail xe (mkSt (s_envs s0 ++ [xe]) r1 (s_snaps s0)) [] launched
           else
             (* CONFIGURE *)
             let targets := active_owned_in e (bound_tids x1) r1 in
@@ -273,15 +277,15 @@ Definition finish (e : N) (c : cspec) (s : st) : st * out :=
             let x2 := set_pend (pend_roles x1) x1 in
             if existsb (fun r => is_task_role r && r_crit r && r_cfgerr r) (c_roles c) then
               let xe := set_estate ES_ERROR x2 in
-              create_tail xe (mkSt (s_envs s0 ++ [xe]) r2 (s_snaps s0)) targets
+              create_tail xe (mkSt (s_envs s0 ++ [xe]) r2 (s_snaps s0)) targets launched
             else
               (mkSt (s_envs s0 ++ [set_estate ES_CONFIGURED x2]) r2 (s_snaps s0),
-               mkOut 0 [] targets [] [] 0)
+               mkOut 0 [] targets [] [] 0 launched)
   end.
 
 Definition out_seq (a b : out) : out :=
   mkOut (o_rc b) (o_kills a ++ o_kills b) (o_cmds a ++ o_cmds b)
-        (o_calls a ++ o_calls b) (o_trigs a ++ o_trigs b) (o_pend b).
+        (o_calls a ++ o_calls b) (o_trigs a ++ o_trigs b) (o_pend b) (o_launch a ++ o_launch b).
 
 (* ---------- ControlEnvironment ---------- *)
 Definition go_error (e : N) (s : st) : st * N :=
@@ -308,10 +312,10 @@ Definition control (e : N) (ev : N) (fail : bool) (s : st) : st * out :=
             let s1 := with_envs s (upd_env e (set_pend pend') (s_envs s)) in
             let '(r', targets, ok) := transition x tdst fail (s_roster s) in
             if ok then
-              (mkSt (upd_env e (set_estate dst) (s_envs s1)) r' (s_snaps s), mkOut 0 [] targets [] [] 0)
+              (mkSt (upd_env e (set_estate dst) (s_envs s1)) r' (s_snaps s), mkOut 0 [] targets [] [] 0 [])
             else
               let '(s2, rc) := go_error e (with_roster s1 r') in
-              (s2, mkOut rc [] targets [] [] 0)
+              (s2, mkOut rc [] targets [] [] 0 [])
       end
   end.
 
@@ -325,14 +329,14 @@ Definition dtc (force keep : bool) (x : env) (s : st) : st * out :=
            else let t2 := teardown true e (td_st t1) in
                 mkTd (td_st t2) (td_ok t2) (td_calls t1 ++ td_calls t2) (td_trigs t1 ++ td_trigs t2) in
   let left := match find_env e (s_envs (td_st t)) with Some x' => e_pend x' | None => 0 end in
-  if negb (td_ok t) then (td_st t, mkOut 1 [] [] (td_calls t) (td_trigs t) left)
-  else if keep then (td_st t, mkOut 0 [] [] (td_calls t) (td_trigs t) left)
+  if negb (td_ok t) then (td_st t, mkOut 1 [] [] (td_calls t) (td_trigs t) left [])
+  else if keep then (td_st t, mkOut 0 [] [] (td_calls t) (td_trigs t) left [])
   else
     let '(r', k) := match bound_tids x with
                     | [] => cleanup (s_roster (td_st t))          (* doCleanupTasks with no ids *)
                     | ids => kill_tasks ids (s_roster (td_st t))
                     end in
-    (with_roster (td_st t) r', mkOut 0 k [] (td_calls t) (td_trigs t) left).
+    (with_roster (td_st t) r', mkOut 0 k [] (td_calls t) (td_trigs t) left []).
 
 Definition destroy (e : N) (force allow keep tfail : bool) (s : st) : st * out :=
   match find_env e (s_envs s) with
@@ -345,8 +349,8 @@ Definition destroy (e : N) (force allow keep tfail : bool) (s : st) : st * out :
           if allow && N.eqb (e_state x) ES_RUNNING then
             let '(r', targets, ok) := transition x TS_CONFIGURED tfail (s_roster s) in
             if ok then (mkSt (upd_env e (set_estate ES_CONFIGURED) (s_envs s)) r' (s_snaps s),
-                        mkOut 0 [] targets [] [] 0, true, false)
-            else (with_roster s r', mkOut 0 [] targets [] [] 0, false, false)
+                        mkOut 0 [] targets [] [] 0 [], true, false)
+            else (with_roster s r', mkOut 0 [] targets [] [] 0 [], false, false)
           else (s, out_rc 0, true, tfail) in
         if negb go_on then let '(s2, o2) := dtc true false x s1 in (s2, out_seq o1 o2)
         else
@@ -359,7 +363,7 @@ Definition destroy (e : N) (force allow keep tfail : bool) (s : st) : st * out :
               else if N.eqb st1 ES_CONFIGURED then
                 (* RESET *)
                 let '(r', targets, ok) := transition x1 TS_STANDBY tfail1 (s_roster s1) in
-                let o1' := out_seq o1 (mkOut 0 [] targets [] [] 0) in
+                let o1' := out_seq o1 (mkOut 0 [] targets [] [] 0 []) in
                 if ok then
                   let s2 := mkSt (upd_env e (set_estate ES_DEPLOYED) (s_envs s1)) r' (s_snaps s1) in
                   let '(s3, o3) := dtc false keep x s2 in (s3, out_seq o1' o3)
@@ -391,8 +395,8 @@ Definition step (s : st) (o : op) : st * out :=
            let '(s2, o2) := finish e c s1 in (s2, out_seq o1 o2)
   | OControl e ev fail => control e ev fail s
   | ODestroy e force allow keep tfail => destroy e force allow keep tfail s
-  | OCleanup => let '(r', k) := cleanup (s_roster s) in (with_roster s r', mkOut 0 k [] [] [] 0)
-  | OKill ids => let '(r', k) := kill_tasks ids (s_roster s) in (with_roster s r', mkOut 0 k [] [] [] 0)
+  | OCleanup => let '(r', k) := cleanup (s_roster s) in (with_roster s r', mkOut 0 k [] [] [] 0 [])
+  | OKill ids => let '(r', k) := kill_tasks ids (s_roster s) in (with_roster s r', mkOut 0 k [] [] [] 0 [])
   | ODies t => (with_roster s (task_dies t (s_roster s)), out_rc 0)
   end.
 
@@ -421,7 +425,8 @@ Record obs := mkObs {
   ob_calls : list N;
   ob_trigs : list N;
   ob_early : N;               (* DESTROY hooks started while a non-hook task was still owned *)
-  ob_pend : N                 (* after a destroy: calls of that environment still pending and not cancelled *)
+  ob_pend : N;                (* after a destroy: calls of that environment still pending and not cancelled *)
+  ob_launch : list N          (* tasks launched during the request *)
 }.
 
 Fixpoint ins_eo (x : envobs) (l : list envobs) : list envobs :=
@@ -436,7 +441,8 @@ Definition observe (s : st) (o : out) : obs :=
            (map (fun x => mkEO (e_id x) (e_state x) (dedupN (sortN (e_dets x))) (e_pend x)) (s_envs s)))
         (sort_roster (s_roster s))
         (dedupN (sortN (active_dets (s_envs s))))
-        (sortN (o_kills o)) (sortN (o_cmds o)) (o_calls o) (sortN (o_trigs o)) 0 (o_pend o).
+        (sortN (o_kills o)) (sortN (o_cmds o)) (o_calls o) (sortN (o_trigs o)) 0 (o_pend o)
+        (sortN (o_launch o)).
 
 Fixpoint run_obs (s : st) (ops : list op) : list obs :=
   match ops with
@@ -453,7 +459,8 @@ Definition obs_eqb (a b : obs) : bool :=
   list_eqb task_eqb (ob_roster a) (ob_roster b) && listN_eqb (ob_adets a) (ob_adets b) &&
   listN_eqb (ob_kills a) (ob_kills b) && listN_eqb (ob_cmds a) (ob_cmds b) &&
   listN_eqb (ob_calls a) (ob_calls b) && listN_eqb (ob_trigs a) (ob_trigs b) &&
-  N.eqb (ob_early a) (ob_early b) && N.eqb (ob_pend a) (ob_pend b).
+  N.eqb (ob_early a) (ob_early b) && N.eqb (ob_pend a) (ob_pend b) &&
+  listN_eqb (ob_launch a) (ob_launch b).
 
 (* ---------- cases written by the harness ---------- *)
 Record hcase := mkCase { h_ops : list op; h_obs : list obs }.
